@@ -189,9 +189,38 @@ def default_renderings(version, opts=None):
     return [r[k] for k in ALL_FIELDS]
 
 
-def settings_of_cli(opts):
-    """the Settings members (as far as toolinfo streams them) that a list of command line options sets"""
+def lang_of(path):
+    return "2" if path.rsplit(".", 1)[-1] in ("cpp", "cxx", "cc", "hpp", "C") else "1"
+
+
+def settings_of_cli(opts, defaults=None, path=None):
+    """the Settings members (as far as toolinfo streams them) that a list of command line options sets;
+    defaults = {"standards":..., "platform":...} as the real Settings render them (harness toolhash)"""
     o = {}
+    d = defaults or {}
+    o["render_inconclusive"] = " "
+    o["render_unusedFunction"] = " "
+    o["render_missingInclude"] = " "
+    o["render_standards"] = d.get("standards", "")
+    o["render_platform"] = d.get("platform", "")
+    o["render_enforcedLang"] = lang_of(path) if path else "1"
+    for k in ("userUndefs", "includePaths", "libraries"):
+        o["render_" + k] = ""
+    for a in opts:
+        if a == "--inconclusive":
+            o["render_inconclusive"] = "i"
+        if a.startswith("--enable="):
+            es = a[len("--enable="):].split(",")
+            if "unusedFunction" in es or "all" in es:
+                o["render_unusedFunction"] = "u"
+            if "missingInclude" in es or "all" in es:
+                o["render_missingInclude"] = "m"
+        if a.startswith("-U"):
+            o["render_userUndefs"] += "-U" + a[2:]
+        if a.startswith("-I"):
+            o["render_includePaths"] += "-I" + a[2:].rstrip("/") + "/"
+        if a.startswith("--library="):
+            o["render_libraries"] += "-l" + a.split("=", 1)[1]
     for a in opts:
         if a.startswith("--enable="):
             for e in a[len("--enable="):].split(","):
